@@ -150,6 +150,10 @@ OS = O(STR)
 SPEC.update({
     "c19.verify_text": ([STR], "pin_verify_text", R(STR)),
     "c11.calibrate_d": ([B, L(Z), L(B), Q], "calibrate_d", R(L(Q))),
+    "c10.read_rc": ([B, NAT, NAT, L(STR), OS, OS, OS, OS, OS, B, L(P(L(Z), L(B)))],
+                    "(fun ec cr cc cols o1 o2 o3 o4 o5 lb rowsm => pc_read_rc ec cr cc cols (Build_pc_opts o1 o2 o3 o4 o5) lb rowsm)",
+                    R(REC("Build_pc_dataset", L(STR), L(STR), L(STR), L(STR), STR, STR, STR, STR, STR, OS, OS, OS, OS, OS,
+                          L(L(Z)), L(B)))),
     "c10.read": ([NAT, L(STR), OS, OS, OS, OS, OS, B, L(L(Z)), L(STR)],
                  "(fun cs cols o1 o2 o3 o4 o5 lb rows nan => pc_read cs cols (Build_pc_opts o1 o2 o3 o4 o5) lb rows nan)",
                  R(REC("Build_pc_dataset", L(STR), L(STR), L(STR), L(STR), STR, STR, STR, STR, STR, OS, OS, OS, OS, OS,
